@@ -30,6 +30,19 @@ src/term_image/utils.py, `_process_start_wrapper` / `_process_run_wrapper` -> a 
 chain is the body of `with _tty_lock:`, and whether the run wrapper installs what it was handed.
 The model's start step is compared with it (C14_start_handover_ignores_configuration).
 
+src/term_image/utils.py, the MODULE INITIALISATION (the module-level statements that bind `_tty_fd` or
+assign `Process.start` / `Process.run`) -> a fourth definition `import_paths : list import_path`
+(vocabulary: coq/model/LockImport.v): the block is INTERPRETED along every execution path -- its only
+sources of branching are the attempts `_tty_fd = os.open(...)` (succeeds / raises OSError) and tests of
+`_tty_fd` against -1 (`OS_IS_UNIX` is taken as true: the property is about Unix) -- through
+for (over the literal tuple ("out", "in", "err")) / else, try / except OSError, break / continue / pass,
+if, `warnings.warn(...)` and string statements; anything else in the block is refused.  A path records
+the outcomes of the attempts, where the last successful one stands (iteration k of the loop, its
+argument mentioning the loop variable -> FStream k; outside the loop with the literal "/dev/tty" ->
+FDevTty; none -> FNone), whether `_tty_fd` was assigned and whether each of the two hook assignments
+was executed (C14_source_hooks_installed_iff_terminal_found).  A hook assignment anywhere else in the
+module is refused.
+
 A site is HELD when it is lexically inside `with _tty_lock, _tty_lock:` (or two directly
 nested single withs) or inside a function decorated with `@lock_tty`; the body of a nested
 def / lambda is not held by what encloses its definition.  A read_tty / read_tty_all site
@@ -576,6 +589,185 @@ def scan_handover(repo: Path):
     return {"under": under, "branches": branches, "else": els, "installs": installs, "line": node.lineno}
 
 
+# ------------------------------------------------------------------ the module initialisation
+HOOKS = {"start": "_process_start_wrapper", "run": "_process_run_wrapper"}
+STREAMS = ("out", "in", "err")
+
+
+class _NeedMore(Exception):
+    pass
+
+
+def _is_fd_store(t):
+    return isinstance(t, ast.Name) and t.id == "_tty_fd"
+
+
+def _hook_target(t):
+    if isinstance(t, ast.Attribute) and isinstance(t.value, ast.Name) and t.value.id == "Process" \
+            and t.attr in HOOKS:
+        return t.attr
+    return None
+
+
+def _is_minus_one(e):
+    return (isinstance(e, ast.UnaryOp) and isinstance(e.op, ast.USub) and isinstance(e.operand, ast.Constant)
+            and e.operand.value == 1) or (isinstance(e, ast.Constant) and e.value == -1)
+
+
+def _is_os_open(e):
+    return isinstance(e, ast.Call) and isinstance(e.func, ast.Attribute) and e.func.attr == "open" \
+        and isinstance(e.func.value, ast.Name) and e.func.value.id == "os" and e.args
+
+
+def _touches_init(node):
+    for n in ast.walk(node):
+        if isinstance(n, ast.Name) and n.id == "_tty_fd" and isinstance(n.ctx, ast.Store):
+            return True
+        if isinstance(n, ast.Attribute) and isinstance(n.ctx, ast.Store) and _hook_target(n):
+            return True
+    return False
+
+
+def scan_import(repo: Path):
+    """-> list of (outcomes, route, tty, start, run); route = ("stream", k) | ("devtty",) | ("none",)"""
+    path = repo / UTILS_REL
+    tree = ast.parse(path.read_text())
+    top = [s for s in tree.body if not isinstance(s, (ast.FunctionDef, ast.AsyncFunctionDef, ast.ClassDef))]
+    for fn in tree.body:
+        if isinstance(fn, (ast.FunctionDef, ast.AsyncFunctionDef, ast.ClassDef)):
+            for n in ast.walk(fn):
+                if isinstance(n, ast.Attribute) and isinstance(n.ctx, ast.Store) and _hook_target(n):
+                    raise Unsupported(f"{UTILS_REL}:{n.lineno}: Process.{n.attr} is assigned outside the module "
+                                      "initialisation")
+                if isinstance(n, ast.Name) and n.id == "_tty_fd" and isinstance(n.ctx, ast.Store):
+                    raise Unsupported(f"{UTILS_REL}:{n.lineno}: _tty_fd is rebound inside a function")
+    block = [s for s in top if _touches_init(s)]
+    if not block:
+        raise Unsupported(f"{UTILS_REL}: no module-level statement binds _tty_fd / Process.start / Process.run")
+
+    def where(n):
+        return f"{UTILS_REL}:{getattr(n, 'lineno', 0)}"
+
+    def catches_oserror(h):
+        t = h.type
+        names = [t] if isinstance(t, ast.Name) else list(t.elts) if isinstance(t, ast.Tuple) else []
+        return any(isinstance(x, ast.Name) and x.id == "OSError" for x in names)
+
+    def run(outcomes):
+        st = {"tty": False, "start": False, "run": False, "route": ("none",), "used": 0}
+
+        def attempt():
+            if st["used"] >= len(outcomes):
+                raise _NeedMore()
+            st["used"] += 1
+            return outcomes[st["used"] - 1]
+
+        def test(e):
+            if isinstance(e, ast.Name) and e.id == "OS_IS_UNIX":
+                return True
+            if isinstance(e, ast.Compare) and len(e.ops) == 1 and _is_fd_load(e.left) and _is_minus_one(e.comparators[0]):
+                if isinstance(e.ops[0], ast.NotEq):
+                    return st["tty"]
+                if isinstance(e.ops[0], ast.Eq):
+                    return not st["tty"]
+            raise Unsupported(f"{where(e)}: a condition of the module initialisation is neither OS_IS_UNIX nor "
+                              "`_tty_fd != -1` / `_tty_fd == -1`")
+
+        def stmts(body, loop):
+            for s in body:
+                sig = stmt(s, loop)
+                if sig != "next":
+                    return sig
+            return "next"
+
+        def stmt(s, loop):  # loop = (variable name, iteration index) | None
+            if isinstance(s, ast.Pass):
+                return "next"
+            if isinstance(s, ast.Break) and loop:
+                return "break"
+            if isinstance(s, ast.Continue) and loop:
+                return "continue"
+            if isinstance(s, ast.Expr):
+                v = s.value
+                if isinstance(v, ast.Constant) and isinstance(v.value, str):
+                    return "next"
+                if isinstance(v, ast.Call) and isinstance(v.func, ast.Attribute) and v.func.attr == "warn" \
+                        and isinstance(v.func.value, ast.Name) and v.func.value.id == "warnings":
+                    return "next"
+                raise Unsupported(f"{where(s)}: unsupported expression statement in the module initialisation")
+            if isinstance(s, ast.Assign) and len(s.targets) == 1:
+                t = s.targets[0]
+                if _is_fd_store(t):
+                    if _is_minus_one(s.value):
+                        st["tty"], st["route"] = False, ("none",)
+                        return "next"
+                    if _is_os_open(s.value):
+                        arg = s.value.args[0]
+                        uses_var = loop is not None and any(
+                            isinstance(n, ast.Name) and n.id == loop[0] for n in ast.walk(arg))
+                        if uses_var:
+                            route = ("stream", loop[1])
+                        elif isinstance(arg, ast.Constant) and arg.value == "/dev/tty" and loop is None:
+                            route = ("devtty",)
+                        else:
+                            raise Unsupported(f"{where(s)}: os.open() of something that is neither a standard "
+                                              "stream's terminal (loop variable) nor \"/dev/tty\"")
+                        if not attempt():
+                            return "raise"
+                        st["tty"], st["route"] = True, route
+                        return "next"
+                    raise Unsupported(f"{where(s)}: _tty_fd is bound to something other than -1 / os.open(...)")
+                h = _hook_target(t)
+                if h:
+                    if not any(isinstance(n, ast.Name) and n.id == HOOKS[h] for n in ast.walk(s.value)):
+                        raise Unsupported(f"{where(s)}: Process.{h} is not assigned {HOOKS[h]}")
+                    st[h] = True
+                    return "next"
+            if isinstance(s, ast.Try) and not s.finalbody and not s.orelse and s.handlers \
+                    and all(catches_oserror(h) for h in s.handlers):
+                sig = stmts(s.body, loop)
+                if sig == "raise":
+                    return stmts(s.handlers[0].body, loop)
+                return sig
+            if isinstance(s, ast.If):
+                return stmts(s.body if test(s.test) else s.orelse, loop)
+            if isinstance(s, ast.For) and isinstance(s.target, ast.Name) and isinstance(s.iter, ast.Tuple) \
+                    and tuple(e.value if isinstance(e, ast.Constant) else None for e in s.iter.elts) == STREAMS \
+                    and loop is None:
+                for k in range(len(STREAMS)):
+                    sig = stmts(s.body, (s.target.id, k))
+                    if sig == "break":
+                        return "next"
+                    if sig == "raise":
+                        return "raise"
+                return stmts(s.orelse, None)
+            raise Unsupported(f"{where(s)}: statement outside the translatable subset in the module initialisation "
+                              f"({type(s).__name__})")
+
+        if stmts(block, None) != "next":
+            raise Unsupported(f"{UTILS_REL}: an os.open() failure escapes the module initialisation")
+        if st["used"] != len(outcomes):
+            raise Unsupported("internal: unused outcomes")
+        return st
+
+    def _is_fd_load(e):
+        return isinstance(e, ast.Name) and e.id == "_tty_fd"
+
+    paths, stack = [], [[]]
+    while stack:
+        pre = stack.pop()
+        if len(pre) > 8:
+            raise Unsupported(f"{UTILS_REL}: more than 8 os.open() attempts on one path of the module initialisation")
+        try:
+            st = run(pre)
+        except _NeedMore:
+            stack += [pre + [False], pre + [True]]
+            continue
+        paths.append((pre, st["route"], st["tty"], st["start"], st["run"]))
+    paths.sort(key=lambda p: (len(p[0]), p[0]))
+    return paths, block[0].lineno
+
+
 def coq_str(s: str) -> str:
     return '"' + s.replace('"', '""') + '"'
 
@@ -589,6 +781,7 @@ def build(repo: Path | None = None) -> str:
         raise Unsupported("no terminal site found")
     srows, version = scan_screen(repo)
     ho = scan_handover(repo)
+    ipaths, iline = scan_import(repo)
     items = []
     for mod, qual, line, callee, kind, held, cont, same in rows:
         items.append("  {| s_mod := %s; s_func := %s; s_line := %d; s_callee := %s; s_kind := %s;\n"
@@ -601,7 +794,7 @@ def build(repo: Path | None = None) -> str:
         "    (vocabulary and meaning: coq/model/LockSites.v). *)",
         "From Coq Require Import List String Bool.",
         "Import ListNotations.",
-        "From TI Require Import model.LockSites.",
+        "From TI Require Import model.LockSites model.LockImport.",
         "Open Scope string_scope.",
         "",
         "Definition lock_regions : list io_site := [",
@@ -621,6 +814,14 @@ def build(repo: Path | None = None) -> str:
         "     h_branches := [%s];" % "; ".join("(%s, %s)" % b for b in ho["branches"]),
         "     h_else := %s;" % ho["else"],
         "     h_run_installs := %s |}." % str(ho["installs"]).lower(),
+        "",
+        f"(* {UTILS_REL}:{iline}ff, the module initialisation: every execution path (outcomes of the os.open attempts) *)",
+        "Definition import_paths : list import_path := [",
+        ";\n".join("  {| ip_outcomes := [%s]; ip_route := %s; ip_tty := %s; ip_start := %s; ip_run := %s |}" % (
+            "; ".join(str(b).lower() for b in o),
+            "FStream %d" % r[1] if r[0] == "stream" else "FDevTty" if r[0] == "devtty" else "FNone",
+            str(t).lower(), str(a).lower(), str(b).lower()) for o, r, t, a, b in ipaths),
+        "].",
         "",
     ])
 
